@@ -22,6 +22,8 @@ pub struct Space_ {
     pub short_len: usize,
     pub pair_seeds: Vec<usize>,
     pair_cum: Vec<usize>,
+    /// 0-deviation corpus: every member of every generated family, judged as is (no mutation)
+    pub plain: Vec<(String, Vec<u8>)>,
     total: usize,
 }
 
@@ -37,6 +39,49 @@ impl Space_ {
     /// the seed list is computed once by the parent and handed to the workers through a file
     pub fn seeds_path(args: &Args) -> std::path::PathBuf {
         args.verif.join("work").join("c05").join("seeds.bin")
+    }
+    pub fn write_list(p: &std::path::Path, seeds: &[(String, Vec<u8>)]) {
+        let _ = std::fs::create_dir_all(p.parent().unwrap());
+        let mut b = vec![];
+        for (n, w) in seeds {
+            b.extend_from_slice(&(n.len() as u32).to_le_bytes());
+            b.extend_from_slice(n.as_bytes());
+            b.extend_from_slice(&(w.len() as u32).to_le_bytes());
+            b.extend_from_slice(w);
+        }
+        let _ = std::fs::write(p, b);
+    }
+    pub fn read_list(p: &std::path::Path) -> Vec<(String, Vec<u8>)> {
+        let b = std::fs::read(p).unwrap_or_default();
+        let mut seeds = vec![];
+        let mut i = 0;
+        while i + 4 <= b.len() {
+            let n = u32::from_le_bytes(b[i..i + 4].try_into().unwrap()) as usize;
+            i += 4;
+            let name = String::from_utf8_lossy(&b[i..i + n]).to_string();
+            i += n;
+            let l = u32::from_le_bytes(b[i..i + 4].try_into().unwrap()) as usize;
+            i += 4;
+            seeds.push((name, b[i..i + l].to_vec()));
+            i += l;
+        }
+        seeds
+    }
+    fn make_plain(args: &Args) -> Vec<(String, Vec<u8>)> {
+        let mut ev = Ev::new("C05");
+        let mut v = vec![];
+        for m in crate::props::families::members(&["struct", "funcs", "locals", "names", "customs", "reach", "ctrl", "idshift", "leb"], args, &mut ev) {
+            v.push((format!("{}:{}", m.family, m.coords), m.wasm));
+        }
+        for c in crate::props::census::cases(args, &mut ev) {
+            v.push((format!("opcensus:{}", c.coords), c.wasm));
+        }
+        let alpha = wgen::body::alphabet();
+        let (seqs, _) = crate::props::bodies::enumerate_all(3, args.threads);
+        for s in seqs {
+            v.push((format!("body:{}", wgen::body::show(&alpha, &s)), wgen::body::scaffold(&[wgen::body::body_bytes(&alpha, &s)])));
+        }
+        v
     }
     pub fn write_seeds(args: &Args, seeds: &[(String, Vec<u8>)]) {
         let p = Self::seeds_path(args);
@@ -64,11 +109,13 @@ impl Space_ {
             seeds.push((name, b[i..i + l].to_vec()));
             i += l;
         }
-        Self::from_seeds(args, seeds)
+        let plain = Self::read_list(&Self::seeds_path(args).with_file_name("plain.bin"));
+        Self::from_seeds(args, seeds, plain)
     }
     pub fn new(args: &Args) -> Space_ {
-        let s = Self::from_seeds(args, Self::make_seeds(args));
+        let s = Self::from_seeds(args, Self::make_seeds(args), Self::make_plain(args));
         Self::write_seeds(args, &s.seeds);
+        Self::write_list(&Self::seeds_path(args).with_file_name("plain.bin"), &s.plain);
         s
     }
     fn make_seeds(args: &Args) -> Vec<(String, Vec<u8>)> {
@@ -92,7 +139,7 @@ impl Space_ {
         }
         seeds
     }
-    fn from_seeds(args: &Args, seeds: Vec<(String, Vec<u8>)>) -> Space_ {
+    fn from_seeds(args: &Args, seeds: Vec<(String, Vec<u8>)>, plain: Vec<(String, Vec<u8>)>) -> Space_ {
         let nsub = if args.tier == Tier::Thorough { 256 } else { V.len() + 3 };
         let nins = if args.tier == Tier::Thorough { 256 } else { 8 };
         // per seed: prefixes (len) + len*nsub substitutions + len deletions + (len+1)*nsub insertions + 1 (the seed)
@@ -116,8 +163,8 @@ impl Space_ {
                 }
             }
         }
-        let total = cum.last().unwrap() + nshort + pair_cum.last().unwrap();
-        Space_ { seeds, nsub, nins, cum, short_len, pair_seeds, pair_cum, total }
+        let total = cum.last().unwrap() + nshort + pair_cum.last().unwrap() + plain.len();
+        Space_ { seeds, nsub, nins, cum, short_len, pair_seeds, pair_cum, plain, total }
     }
     pub fn len(&self) -> usize {
         self.total
@@ -198,6 +245,10 @@ impl Space_ {
             return Some((format!("header + {:02x?}", tail), w));
         }
         k -= nshort;
+        if k >= *self.pair_cum.last().unwrap() {
+            let (n, w) = &self.plain[k - self.pair_cum.last().unwrap()];
+            return Some((format!("{} (as is)", n), w.clone()));
+        }
         // pairs
         let pi = match self.pair_cum.binary_search(&k) {
             Ok(i) => i,
@@ -690,6 +741,7 @@ pub fn run(args: &Args) -> i32 {
     ev.states = judged;
     ev.nontrivial = accepted.max(2);
     viol.extend(run_depth(args, &mut ev));
+    ev.extra.insert("zero_deviation_corpus".into(), json!(sp.plain.len()));
     ev.extra.insert("inputs".into(), json!({"enumerated_slots": total, "judged": judged, "no_op_slots_skipped": skipped, "accepted_by_walrus_default": accepted, "seeds": sp.seeds.len()}));
     for i in [0usize, total / 3, total - 1] {
         if let Some((n, b)) = sp.get(i) {
@@ -697,7 +749,8 @@ pub fn run(args: &Args) -> i32 {
         }
     }
     ev.rule = format!(
-        "deviation-bounded enumeration: {} valid seeds (fixtures, every struct dimension variant, custom-section placements, a full name section, operator representatives); 0 deviations = the seed, 1 deviation = \
+        "deviation-bounded enumeration: {} valid seeds (fixtures, every struct dimension variant, custom-section placements, a full name section, operator representatives); 0 deviations = the seed and, as is, every member \
+         of every generated family incl. the whole operator census; 1 deviation = \
          every prefix, every position x every value of the byte set ({} values per position), every single deletion, every single insertion (8 values quick / 256 thorough); all byte strings header+w with |w| <= {}; {}plus a depth/size family \
          (nesting up to 10^{}, br_table arity, locals, function count, body size at LEB boundaries and validator limits) with each member parsed in a process of its own. Each input is parsed under the default \
          and the only-stable configuration in worker subprocesses. Oracle: no panic / crash / hang; accept <=> stand-alone wasmparser 0.214 with the feature set written down from the documentation. \
